@@ -4,6 +4,13 @@
 // connect-to lists are started for real, generated targets are requested (plain, CONNECT, inside an
 // intercepted tunnel), and the dial log, the listener that accepted the connection and the first line
 // it read are compared with the model and with the property's decision table.
+//
+// The targets of one configuration are a request SEQUENCE served by one proxy instance: several requests
+// to the same host[:port] with different paths, queries and schemes (plain, inside an intercepted tunnel,
+// CONNECT), on one client connection / tunnel and on several. PAC scripts decide on the whole URL
+// (shExpMatch(url, …), substring/indexOf tests, host globs; throwing or returning a malformed result for
+// some URLs only). The model is asked once per sequence (`C05 routeseq`: the instance folded over the
+// requests) and the k-th observation is compared with its k-th answer.
 package c05
 
 import (
@@ -102,10 +109,41 @@ func (h *hops) accepts() map[string]int64 {
 
 // target is one request of a case.
 type target struct {
-	Kind      string `json:"kind"`      // "plain" | "connect" | "mitm"
-	Authority string `json:"authority"` // host[:port] as the client writes it
-	Absolute  bool   `json:"absolute,omitempty"`
-	ID        string `json:"id"`
+	Kind      string  `json:"kind"`      // "plain" | "connect" | "mitm"
+	Authority string  `json:"authority"` // host[:port] as the client writes it
+	Absolute  bool    `json:"absolute,omitempty"`
+	ID        string  `json:"id"`
+	Path      string  `json:"path,omitempty"` // "" = /r
+	Query     *string `json:"query,omitempty"`
+	// Reuse: sent on the client connection (plain) or inside the tunnel (mitm) the previous target of the
+	// same kind left open, if any
+	Reuse bool `json:"reuse,omitempty"`
+}
+
+func (t *target) path() string {
+	if t.Path == "" {
+		return "/r"
+	}
+	return t.Path
+}
+
+// requestURI is path?query as written on the wire.
+func (t *target) requestURI() string {
+	if t.Query != nil {
+		return t.path() + "?" + *t.Query
+	}
+	return t.path()
+}
+
+// seqReq is what the proxy function sees of the target.
+func (t *target) seqReq() reqmodel.SeqReq {
+	switch t.Kind {
+	case "connect":
+		return reqmodel.SeqReq{Connect: true, Host: t.Authority}
+	case "mitm":
+		return reqmodel.SeqReq{Scheme: "https", Host: t.Authority, Path: t.path(), Query: t.Query}
+	}
+	return reqmodel.SeqReq{Scheme: "http", Host: t.Authority, Path: t.path(), Query: t.Query}
 }
 
 // rcase is one configuration with its targets. Listener addresses appear symbolically in ConnectTo
@@ -119,12 +157,15 @@ type rcase struct {
 	Targets   []target          `json:"targets"`
 }
 
+// oneTarget is the replayable form of one evaluation: the target with the requests the same proxy
+// instance served before it.
 type oneTarget struct {
 	Kind      string            `json:"kind"` // "one"
 	Route     reqmodel.RouteCfg `json:"route"`
 	LocalMode string            `json:"local_mode"`
 	MITM      bool              `json:"mitm,omitempty"`
 	NGen      int               `json:"n_generated_rules"`
+	History   []target          `json:"history,omitempty"`
 	Target    target            `json:"target"`
 }
 
@@ -191,14 +232,27 @@ func runCase(ctx *core.Ctx, h *hops, rc *rcase) {
 	}
 	defer p.Stop()
 
+	// the model: this instance folded over the whole request sequence
+	var reqs []reqmodel.SeqReq
+	for i := range rc.Targets {
+		reqs = append(reqs, rc.Targets[i].seqReq())
+	}
+	answers := reqmodel.AskRouteSeq(ctx.Model, &route, hostsAliases.own, reqs)
+
+	sess := &session{addr: p.Addr}
+	defer sess.close()
+	var seen []*routed
 	for i := range rc.Targets {
 		t := rc.Targets[i]
-		one := oneTarget{Kind: "one", Route: rc.Route, LocalMode: rc.LocalMode, MITM: rc.MITM, NGen: rc.NGen, Target: t}
-		h.reset()
-		dmu.Lock()
-		dials = nil
-		dmu.Unlock()
-		ob := exchange(p.Addr, &t)
+		one := oneTarget{Kind: "one", Route: rc.Route, LocalMode: rc.LocalMode, MITM: rc.MITM, NGen: rc.NGen, History: rc.Targets[:i:i], Target: t}
+		fresh := func() {
+			h.reset()
+			dmu.Lock()
+			dials = nil
+			dmu.Unlock()
+		}
+		fresh()
+		ob := sess.exchange(&t, fresh)
 		// let late accepts land: every live dial accepted and the counters stable
 		deadline := time.Now().Add(time.Second)
 		stable, last := 0, int64(-1)
@@ -239,14 +293,37 @@ func runCase(ctx *core.Ctx, h *hops, rc *rcase) {
 		for _, sr := range h.socks.Requests() {
 			ob.SocksTargets = append(ob.SocksTargets, sr.Target)
 		}
-		evaluate(ctx, h, &fc, one, &t, ob)
+		ctx.Count(fmt.Sprintf("seq/position=%d", min(i, 8)))
+		evaluate(ctx, h, &fc, one, &t, ob, &answers[i])
+		// the same request served twice by one instance is routed the same way both times
+		cur := &routed{key: fmt.Sprintf("%s|%s|%v|%s", t.Kind, t.Authority, t.Absolute, t.requestURI()), status: ob.Status, dials: ob.Dials, err: ob.Err}
+		for _, prev := range seen {
+			if prev.key != cur.key || prev.err != "" || cur.err != "" {
+				continue
+			}
+			ctx.Count("seq/repeated-request")
+			if (prev.status >= 400) != (cur.status >= 400) || fmt.Sprint(prev.dials) != fmt.Sprint(cur.dials) {
+				ctx.SpecFail("the routing of a request does not depend on what the proxy served before: the same request is routed the same way each time", "",
+					one, ob.String(), fmt.Sprintf("earlier in this sequence: status %d dials %v", prev.status, prev.dials))
+			}
+			break
+		}
+		seen = append(seen, cur)
 	}
+}
+
+type routed struct {
+	key    string
+	status int
+	dials  []dialRec
+	err    string
 }
 
 // observed is what one target caused.
 type observed struct {
 	Status       int               `json:"status"`
 	Err          string            `json:"err,omitempty"`
+	Reused       bool              `json:"reused_connection,omitempty"`
 	Dials        []dialRec         `json:"dials"`
 	Accepts      map[string]int64  `json:"accepts"`
 	FirstLines   map[string]string `json:"first_lines"`
@@ -255,17 +332,54 @@ type observed struct {
 
 func (o *observed) String() string { b, _ := json.Marshal(o); return string(b) }
 
-// exchange sends the target's request(s) and returns the status of the decisive response.
-func exchange(addr string, t *target) *observed {
-	ob := &observed{}
-	c, err := rig.Dial(addr)
-	if err != nil {
-		ob.Err = err.Error()
-		return ob
+// session is the client side of one request sequence: the connections targets may share.
+type session struct {
+	addr   string
+	plain  *rig.Client // idle keep-alive connection to the proxy
+	tunnel *rig.Client // TLS session inside an intercepted tunnel
+}
+
+func (s *session) close() {
+	if s.plain != nil {
+		s.plain.Close()
+		s.plain = nil
 	}
-	defer c.Close()
+	if s.tunnel != nil {
+		s.tunnel.Close()
+		s.tunnel = nil
+	}
+}
+
+func keepsAlive(res *rig.Msg) bool {
+	for _, f := range res.Fields {
+		if strings.EqualFold(f.Name, "Connection") && strings.Contains(strings.ToLower(f.Value), "close") {
+			return false
+		}
+	}
+	return res.Proto == "HTTP/1.1" && res.Framing != "eof"
+}
+
+// roundTrip sends one GET on c and reads the response.
+func roundTrip(c *rig.Client, line string, t *target) (*rig.Msg, error) {
+	if err := c.Send([]byte(fmt.Sprintf("%s\r\nHost: %s\r\nCase-Id: %s\r\n\r\n", line, t.Authority, t.ID)), nil); err != nil {
+		return nil, err
+	}
+	return c.ReadResponse("GET", 8*time.Second)
+}
+
+// exchange sends the target's request(s) and returns the status of the decisive response. A target with
+// Reuse goes out on the connection / tunnel the previous one left open; when the proxy has closed that
+// in the meantime the observation is started afresh (fresh()) on a new connection.
+func (s *session) exchange(t *target, fresh func()) *observed {
+	ob := &observed{}
 	switch t.Kind {
 	case "connect":
+		c, err := rig.Dial(s.addr)
+		if err != nil {
+			ob.Err = err.Error()
+			return ob
+		}
+		defer c.Close()
 		c.Send([]byte(fmt.Sprintf("CONNECT %s HTTP/1.1\r\nHost: %s\r\nCase-Id: %s\r\n\r\n", t.Authority, t.Authority, t.ID)), nil)
 		res, err := c.ReadResponse("CONNECT", 8*time.Second)
 		if err != nil {
@@ -274,37 +388,98 @@ func exchange(addr string, t *target) *observed {
 		}
 		ob.Status = res.Status
 	case "plain":
-		line := "GET /r HTTP/1.1"
+		line := "GET " + t.requestURI() + " HTTP/1.1"
 		if t.Absolute {
-			line = "GET http://" + t.Authority + "/r HTTP/1.1"
+			line = "GET http://" + t.Authority + t.requestURI() + " HTTP/1.1"
 		}
-		c.Send([]byte(fmt.Sprintf("%s\r\nHost: %s\r\nCase-Id: %s\r\n\r\n", line, t.Authority, t.ID)), nil)
-		res, err := c.ReadResponse("GET", 8*time.Second)
+		if t.Reuse && s.plain != nil {
+			c := s.plain
+			s.plain = nil
+			if res, err := roundTrip(c, line, t); err == nil {
+				ob.Status, ob.Reused = res.Status, true
+				if keepsAlive(res) {
+					s.plain = c
+				} else {
+					c.Close()
+				}
+				return ob
+			}
+			c.Close()
+			fresh()
+		}
+		if s.plain != nil {
+			s.plain.Close()
+			s.plain = nil
+		}
+		c, err := rig.Dial(s.addr)
 		if err != nil {
 			ob.Err = err.Error()
 			return ob
 		}
+		res, err := roundTrip(c, line, t)
+		if err != nil {
+			c.Close()
+			ob.Err = err.Error()
+			return ob
+		}
 		ob.Status = res.Status
+		if keepsAlive(res) {
+			s.plain = c
+		} else {
+			c.Close()
+		}
 	case "mitm":
+		line := "GET " + t.requestURI() + " HTTP/1.1"
+		if t.Reuse && s.tunnel != nil {
+			c := s.tunnel
+			s.tunnel = nil
+			if res, err := roundTrip(c, line, t); err == nil {
+				ob.Status, ob.Reused = res.Status, true
+				if keepsAlive(res) {
+					s.tunnel = c
+				} else {
+					c.Close()
+				}
+				return ob
+			}
+			c.Close()
+			fresh()
+		}
+		if s.tunnel != nil {
+			s.tunnel.Close()
+			s.tunnel = nil
+		}
 		// the tunnel is opened towards a name that passes every control and is intercepted locally;
 		// the request inside names the real target in Host
+		c, err := rig.Dial(s.addr)
+		if err != nil {
+			ob.Err = err.Error()
+			return ob
+		}
 		c.Send([]byte("CONNECT tunnel.test:443 HTTP/1.1\r\nHost: tunnel.test:443\r\n\r\n"), nil)
 		res, err := c.ReadResponse("CONNECT", 8*time.Second)
 		if err != nil || res.Status != 200 {
+			c.Close()
 			ob.Err = fmt.Sprintf("mitm CONNECT: %v %+v", err, res)
 			return ob
 		}
 		if _, err := c.StartTLS("tunnel.test", nil, true); err != nil {
+			c.Close()
 			ob.Err = err.Error()
 			return ob
 		}
-		c.Send([]byte(fmt.Sprintf("GET /r HTTP/1.1\r\nHost: %s\r\nCase-Id: %s\r\n\r\n", t.Authority, t.ID)), nil)
-		res, err = c.ReadResponse("GET", 8*time.Second)
+		res, err = roundTrip(c, line, t)
 		if err != nil {
+			c.Close()
 			ob.Err = err.Error()
 			return ob
 		}
 		ob.Status = res.Status
+		if keepsAlive(res) {
+			s.tunnel = c
+		} else {
+			c.Close()
+		}
 	}
 	return ob
 }
@@ -315,11 +490,16 @@ func localNames() []string {
 }
 
 func Run(ctx *core.Ctx) {
-	ctx.SetRule("generated configurations {no upstream, static http/https/socks5 proxy, PAC script returning generated strings per host, custom proxy function} x " +
+	ctx.SetRule("generated configurations {no upstream, static http/https/socks5 proxy, PAC script, custom proxy function} x " +
 		"direct-domains include/exclude lists x proxy-localhost deny/allow/direct x connect-to lists (generated rules with empty fields in front of the fixed routes), " +
-		"each started as a real proxy; targets with explicit/implicit ports, as plain request (origin/absolute form), CONNECT, and request inside an intercepted tunnel; " +
-		"PAC strings from a grammar (keywords in any case, unknown ones, h:p, [v6]:p, missing/empty/non-numeric port, extra spaces, several ';' entries) and arbitrary strings; " +
+		"each started as a real proxy (forwarder.NewHTTPProxy) and serving a SEQUENCE of 4-8 requests, most of them to one host[:port] with different paths, queries, " +
+		"schemes and kinds (plain origin/absolute form, CONNECT, request inside an intercepted tunnel), on one client connection / tunnel and on several; " +
+		"PAC scripts are decision lists over (url, host): shExpMatch(url|host, glob), url.substring/indexOf tests, host == k, negations and conjunctions, a host table and a final return, " +
+		"each branch returning a string from the result grammar (keywords in any case, unknown ones, h:p, [v6]:p, missing/empty/non-numeric/out-of-range port, extra spaces, several ';' entries), an arbitrary string, a number, or throwing; " +
+		"target hosts include localhost, loopback literals and every name the machine's hosts file maps to a loopback address; " +
+		"the model is one instance folded over the whole sequence (C05 routeseq), compared position by position; " +
 		"non-trivial = the configuration has a proxy function or a generated connect-to rule applies; distinct = distinct (configuration, target)")
+	checkHostsFile(ctx)
 	for _, c := range core.LoadCorpus(ctx.Root, "C05") {
 		Replay(ctx, c)
 	}
@@ -353,6 +533,33 @@ func Run(ctx *core.Ctx) {
 	wg.Wait()
 }
 
+// checkHostsFile compares hostsfile.LocalhostAliases (what NewHTTPProxy appends to the localhost names)
+// with the harness's own reading of /etc/hosts.
+func checkHostsFile(ctx *core.Ctx) {
+	localNames()
+	own := map[string]bool{}
+	for _, a := range hostsAliases.own {
+		own[a] = true
+	}
+	pkg := map[string]bool{}
+	for _, a := range hostsAliases.pkg {
+		pkg[a] = true
+	}
+	same := len(own) == len(pkg)
+	for a := range own {
+		if !pkg[a] {
+			same = false
+		}
+	}
+	ctx.Case("hostsfile", len(own) > 0)
+	if !same {
+		ctx.Disagree("hostsfile.LocalhostAliases = names /etc/hosts maps to a loopback address", map[string]any{"kind": "hostsfile"}, fmt.Sprint(hostsAliases.pkg), fmt.Sprint(hostsAliases.own))
+	} else {
+		ctx.TraceValidated()
+	}
+	ctx.Count(fmt.Sprintf("hosts-file/aliases-usable-as-targets=%d", len(aliasTargets())))
+}
+
 func Replay(ctx *core.Ctx, raw json.RawMessage) {
 	var k struct {
 		Kind string `json:"kind"`
@@ -360,12 +567,17 @@ func Replay(ctx *core.Ctx, raw json.RawMessage) {
 	json.Unmarshal(raw, &k)
 	var rc rcase
 	switch k.Kind {
+	case "hostsfile":
+		checkHostsFile(ctx)
+		return
+	case "pac-string", "redirect", "splithostport":
+		return // API-level cases are regenerated by pacAPI on every run
 	case "one":
 		var o oneTarget
 		if err := json.Unmarshal(raw, &o); err != nil {
 			core.Fatalf("bad C05 case: %v", err)
 		}
-		rc = rcase{Kind: "routing", Route: o.Route, LocalMode: o.LocalMode, MITM: o.MITM, NGen: o.NGen, Targets: []target{o.Target}}
+		rc = rcase{Kind: "routing", Route: o.Route, LocalMode: o.LocalMode, MITM: o.MITM, NGen: o.NGen, Targets: append(append([]target{}, o.History...), o.Target)}
 	default:
 		if err := json.Unmarshal(raw, &rc); err != nil {
 			core.Fatalf("bad C05 case: %v", err)
